@@ -7,6 +7,9 @@
    "upd": update of key k with content c; site = "none" (runs to the answer) or the
    place where the process is killed; reach = whether the catalogue assignment
    reaches the disk before anything else happens.  "crash": kill between updates.
+   site "movefail" / "stagedlost": the update fails without killing the process (the move
+   raises / the staged file is taken away after encode()); site "midcopy": kill inside
+   the transfer of a new content into the store.
 
    Mode "trans" (VIEW View, ACTION_CONSTRAINT EmitTrans): every explored transition
    that is a Crash, an Answer, a Close or a Purge is printed once as the history h'
@@ -20,7 +23,10 @@ VARIABLES h,
           life     \* contents whose move into the store failed during the CURRENT life of the process: the model has no
                    \* process memory, the code may (caches); kept in the view so that "the same process goes on after
                    \* the failure" is not merged with "a new process opens the same files"
-gvars == <<vars, h, life>>
+VARIABLE torn     \* contents whose transfer into the store was interrupted by a kill ("midcopy"): for the model the same
+                  \* disk state as a kill before the move, for an implementation that is not atomic a different one;
+                  \* kept in the view so that the histories that offer the content again are generated
+gvars == <<vars, h, life, torn>>
 
 COrder == <<"c1", "c2", "c3">>
 Used == { h[i].c : i \in { j \in DOMAIN h : h[j].op = "upd" } }
@@ -30,22 +36,24 @@ Canon(c) == \/ c \in Used
                                         /\ \A j \in 1..(i - 1) : COrder[j] \in Used
 Ev(op, k, c, site, reach) == [op |-> op, k |-> k, c |-> c, site |-> site, reach |-> reach]
 
-GenInit == Init /\ h = <<>> /\ life = {}
+GenInit == Init /\ h = <<>> /\ life = {} /\ torn = {}
 GenNext ==
-    \/ Reopen /\ h' = Append(h, Ev("open", "-", "-", "none", TRUE)) /\ life' = {}
+    \/ Reopen /\ h' = Append(h, Ev("open", "-", "-", "none", TRUE)) /\ life' = {} /\ UNCHANGED torn
     \/ \E k \in Keys, c \in Contents :
-          Canon(c) /\ StageMk(k, c) /\ h' = Append(h, Ev("upd", k, c, "none", TRUE)) /\ UNCHANGED life
-    \/ (StageWrite \/ DoDigest \/ ExistsCheck \/ Move \/ Answer) /\ h' = h /\ UNCHANGED life
-    \/ \E reach \in BOOLEAN : Record(reach) /\ h' = [h EXCEPT ![Len(h)].reach = reach] /\ UNCHANGED life
+          Canon(c) /\ StageMk(k, c) /\ h' = Append(h, Ev("upd", k, c, "none", TRUE)) /\ UNCHANGED <<life, torn>>
+    \/ (StageWrite \/ DoDigest \/ ExistsCheck \/ Move \/ Answer) /\ h' = h /\ UNCHANGED <<life, torn>>
+    \/ \E reach \in BOOLEAN : Record(reach) /\ h' = [h EXCEPT ![Len(h)].reach = reach] /\ UNCHANGED <<life, torn>>
     \/ \E s \in AllSites :
           /\ Crash(s)
           /\ h' = (IF pc = "idle" THEN Append(h, Ev("crash", "-", "-", s, TRUE)) ELSE [h EXCEPT ![Len(h)].site = s])
+          /\ torn' = (IF s = "midcopy" THEN torn \cup {uc} ELSE torn)
           /\ UNCHANGED life
-    \/ MoveFails /\ h' = [h EXCEPT ![Len(h)].site = "movefail"] /\ life' = life \cup {uc}
-    \/ Close /\ h' = Append(h, Ev("close", "-", "-", "none", TRUE)) /\ UNCHANGED life
-    \/ Purge /\ h' = Append(h, Ev("purge", "-", "-", "none", TRUE)) /\ UNCHANGED life
+    \/ MoveFails /\ h' = [h EXCEPT ![Len(h)].site = "movefail"] /\ life' = life \cup {uc} /\ UNCHANGED torn
+    \/ StagedLost /\ h' = [h EXCEPT ![Len(h)].site = "stagedlost"] /\ life' = life \cup {uc} /\ UNCHANGED torn
+    \/ Close /\ h' = Append(h, Ev("close", "-", "-", "none", TRUE)) /\ UNCHANGED <<life, torn>>
+    \/ Purge /\ h' = Append(h, Ev("purge", "-", "-", "none", TRUE)) /\ UNCHANGED <<life, torn>>
 GenSpec == GenInit /\ [][GenNext]_gvars
-View == <<vars, life>>
+View == <<vars, life, torn>>
 
 Interesting == nev' # nev \/ rep' # "none"
 EmitTrans == Interesting => PrintT(<<"CASE", ToJson(h')>>)
